@@ -470,8 +470,9 @@ def clause_f(ctx: Context, idx, reg) -> None:
             raise AnalysisError(f"anchor vanished: {cname}.__add__")
         other = [p for p in add.params() if p != "self"][0]
         # arms: if/elif chain on isinstance(other, T)
-        cur = next((s for s in add.node.body if isinstance(s, ast.If)), None)
-        while cur is not None:
+        # (every `if isinstance(other, T)` of the method, whether the arms are chained with elif, nested under else or laid out in sequence)
+        arms_ = [s for s in ast.walk(add.node) if isinstance(s, ast.If) and is_isinstance(s.test, other) is not None]
+        for cur in sorted(arms_, key=lambda s_: s_.lineno):
             ii = is_isinstance(cur.test, other)
             if ii is not None:
                 tcls = idx.resolve_expr(cls.module, ii[1])
@@ -505,7 +506,6 @@ def clause_f(ctx: Context, idx, reg) -> None:
                                               f"{cname} + {tcls.name}: the result returned here is built without reading "
                                               f"{opname}.params['coefficient'] ({ocls.name} carries a coefficient): `a + c*b` and `c*b + a` "
                                               f"denote different superpositions", norm(ret)[:80])
-            cur = cur.orelse[0] if len(cur.orelse) == 1 and isinstance(cur.orelse[0], ast.If) else None
     ctx.require_floor("isinstance arms of the preparation algebra", n_arms, 4)
     # WeightMixin scalar algebra: * multiplies, / divides by the same factor
     wm = idx.find_class("piquasso.core._mixins", "WeightMixin")
